@@ -70,6 +70,10 @@ FACTS = [
     ("stateKeyFileVersion", "proxy_agent_extension/src/constants.rs", r'pub const STATE_KEY_FILE_VERSION\s*:\s*&str\s*=\s*"([^"]*)"\s*;', "str", "FileVersion", ["C20"]),
     ("stateKeyConstants", ["proxy_agent_extension/src/constants.rs"], r"pub const STATE_KEY_\w+\s*:", "count", 2, ["C20"]),
     ("serviceStateCreations", ["proxy_agent_extension/src/service_main.rs"], r"ServiceState::(?:default|new)\(\)", "count", 1, ["C20"]),
+    ("localMapType", "linux-ebpf/ebpf_cgroup.c", r"__uint\(type,\s*(BPF_MAP_TYPE_\w+)\);[^{}]*\}\s*local_map\s+SEC", "str", "BPF_MAP_TYPE_LRU_HASH", ["C06"]),
+    ("auditMapType", "linux-ebpf/ebpf_cgroup.c", r"__uint\(type,\s*(BPF_MAP_TYPE_\w+)\);[^{}]*\}\s*audit_map\s+SEC", "str", "BPF_MAP_TYPE_LRU_HASH", ["C06"]),
+    ("localMapMaxEntries", "linux-ebpf/ebpf_cgroup.c", r"__uint\(max_entries,\s*(\d+)\);\s*\}\s*local_map\s+SEC", "nat", 200, ["C06"]),
+    ("auditMapMaxEntries", "linux-ebpf/ebpf_cgroup.c", r"__uint\(max_entries,\s*(\d+)\);\s*\}\s*audit_map\s+SEC", "nat", 200, ["C06"]),
     ("keyDirMode", "proxy_agent/src/acl/linux_acl.rs", r"fs::Permissions::from_mode\(\s*0o([0-7]+)\s*\)", "oct", 0o700, ["C12"]),
     ("keyStructDerivesDebug", ["proxy_agent/src/key_keeper/key.rs"],
      r"#\[derive\([^\]]*Debug[^\]]*\)\]\s*(?:#\[[^\]]*\]\s*)*pub struct Key\s*\{", "count", 0, ["C12"]),
